@@ -421,14 +421,26 @@ class List(list, base.Symbolic, pg_typing.CustomTyping):
     new_value = self._formalized_value(index, value)
     if index < len(self):
       if should_insert:
+        if self.max_size is not None and len(self) >= self.max_size:
+          raise ValueError(f'List reached its max size {self.max_size}.')
         list.insert(self, index, new_value)
         self._update_children_index()
       else:
+        # Storing MISSING_VALUE removes the item (see `_on_change`).
+        if pg_typing.MISSING_VALUE == new_value and self._value_spec:
+          num_items = sum(
+              1 for x in self.sym_values() if pg_typing.MISSING_VALUE != x)
+          if num_items <= self._value_spec.min_size:
+            raise ValueError(
+                f'Cannot remove item: min size '
+                f'({self._value_spec.min_size}) is reached.')
         list.__setitem__(self, index, new_value)
         # Detach old value from object tree.
         if isinstance(old_value, base.TopologyAware):
           old_value.sym_setparent(None)
     else:
+      if self.max_size is not None and len(self) >= self.max_size:
+        raise ValueError(f'List reached its max size {self.max_size}.')
       super().append(new_value)
     return base.FieldUpdate(
         self.sym_path + index, self,
@@ -548,6 +560,18 @@ class List(list, base.Symbolic, pg_typing.CustomTyping):
         step = -step
       slice_size = max(0, math.ceil((stop - start) * 1.0 / step))
       if not extended:
+        # Check the size bounds before touching any item.
+        new_size = len(self) - slice_size + len(replacements)
+        if (new_size > len(self)
+            and self.max_size is not None and new_size > self.max_size):
+          raise ValueError(
+              f'Cannot assign slice: the new size ({new_size}) exceeds '
+              f'max size ({self.max_size}).')
+        if (new_size < len(self)
+            and self._value_spec and new_size < self._value_spec.min_size):
+          raise ValueError(
+              f'Cannot assign slice: the new size ({new_size}) is below '
+              f'min size ({self._value_spec.min_size}).')
         if slice_size < len(replacements):
           for i in range(slice_size, len(replacements)):
             replacements[i] = Insertion(replacements[i])
@@ -596,6 +620,11 @@ class List(list, base.Symbolic, pg_typing.CustomTyping):
       raise IndexError(
           f'list index out of range. '
           f'Length={len(self)}, index={index}')
+
+    if self._value_spec and self._value_spec.min_size == len(self):
+      raise ValueError(
+          f'Cannot remove item: min size ({self._value_spec.min_size}) '
+          f'is reached.')
 
     old_value = self.sym_getattr(index)
     super().__delitem__(index)
